@@ -198,6 +198,13 @@ pub trait Prop: Sync {
     fn prod_digest_comparable(&self) -> bool {
         false
     }
+    /// seconds without a new run being announced after which a worker is declared hung and killed
+    fn stall_limit_s(&self, tier: Tier) -> u64 {
+        match tier {
+            Tier::Quick => 150,
+            Tier::Thorough => 400,
+        }
+    }
     /// how many workers (default: all cores)
     fn jobs(&self) -> usize {
         16
@@ -305,6 +312,12 @@ pub fn shrink_case(prop: &dyn Prop, case: &Case, v: &Violation, tier: Tier, max_
                 break 'outer;
             }
             evals += 1;
+            {
+                // heartbeat for the coordinator's watchdog
+                let mut o = std::io::stdout().lock();
+                let _ = writeln!(o, "H");
+                let _ = o.flush();
+            }
             let mut ctx = Ctx::new(tier);
             ctx.replaying = true;
             let vs = exec_checked(prop, &cand, &mut ctx);
@@ -513,11 +526,35 @@ pub fn coordinate(prop: &dyn Prop, tier: Tier, seed: u64, jobs: usize, want_dige
         let child = cmd.spawn().unwrap_or_else(|e| harness_error(&format!("spawn worker: {e}")));
         children.push((k, child));
     }
-    // read each worker's stdout in a thread
+    // read each worker's stdout in a thread; a watchdog kills a worker that announces no new run for too long
+    // (last resort for CPU-only loops: a loop that touches the seams is stopped by the step budget instead)
+    let stall_limit = prop.stall_limit_s(tier);
+    let t_start = Instant::now();
     let mut handles = Vec::new();
     for (k, mut child) in children {
         let stdout = child.stdout.take().unwrap();
         let stderr = child.stderr.take().unwrap();
+        let child = std::sync::Arc::new(std::sync::Mutex::new(child));
+        let last = std::sync::Arc::new(std::sync::atomic::AtomicU64::new(0));
+        let done = std::sync::Arc::new(std::sync::atomic::AtomicBool::new(false));
+        let hung = std::sync::Arc::new(std::sync::atomic::AtomicBool::new(false));
+        {
+            let (child, last, done, hung) = (child.clone(), last.clone(), done.clone(), hung.clone());
+            std::thread::spawn(move || loop {
+                std::thread::sleep(std::time::Duration::from_millis(500));
+                if done.load(std::sync::atomic::Ordering::Relaxed) {
+                    break;
+                }
+                let now = t_start.elapsed().as_secs();
+                if now.saturating_sub(last.load(std::sync::atomic::Ordering::Relaxed)) > stall_limit {
+                    hung.store(true, std::sync::atomic::Ordering::Relaxed);
+                    if let Ok(mut c) = child.lock() {
+                        let _ = c.kill();
+                    }
+                    break;
+                }
+            });
+        }
         handles.push(std::thread::spawn(move || {
             let errh = std::thread::spawn(move || {
                 let mut s = String::new();
@@ -529,6 +566,7 @@ pub fn coordinate(prop: &dyn Prop, tier: Tier, seed: u64, jobs: usize, want_dige
             let mut report: Option<WorkerReport> = None;
             for line in BufReader::new(stdout).lines() {
                 let Ok(line) = line else { break };
+                last.store(t_start.elapsed().as_secs(), std::sync::atomic::Ordering::Relaxed);
                 if let Some(r) = line.strip_prefix("S ") {
                     last_start = r.trim().parse().ok();
                 } else if let Some(v) = line.strip_prefix("V ") {
@@ -539,8 +577,12 @@ pub fn coordinate(prop: &dyn Prop, tier: Tier, seed: u64, jobs: usize, want_dige
                     report = serde_json::from_str(r).ok();
                 }
             }
-            let status = child.wait().ok();
-            let err = errh.join().unwrap_or_default();
+            done.store(true, std::sync::atomic::Ordering::Relaxed);
+            let status = child.lock().ok().and_then(|mut c| c.wait().ok());
+            let mut err = errh.join().unwrap_or_default();
+            if hung.load(std::sync::atomic::Ordering::Relaxed) {
+                err.push_str(&format!("\nno progress for more than {stall_limit} s: the operation does not terminate (killed by the watchdog)"));
+            }
             (k, last_start, viols, report, status, err)
         }));
     }
